@@ -136,6 +136,9 @@ def digitsVal (ds : List Char) : Nat := ds.foldl (fun a c => a * 10 + (c.toNat -
 
 def pow10 (e : Int) : Rat := if 0 ≤ e then (10 : Rat) ^ e.toNat else 1 / (10 : Rat) ^ (-e).toNat
 
+/-- longest prefix of digits, and the rest -/
+def spanD (l : List Char) : List Char × List Char := (l.takeWhile isDigit, l.dropWhile isDigit)
+
 structure NumParts where
   neg : Bool
   ip : List Char
@@ -143,31 +146,50 @@ structure NumParts where
   exp : Int
   deriving Repr, DecidableEq
 
-/-- the whole lexeme as a CSS number: `[+-]? (d+ | d* . d+) ([eE] [+-]? d+)?` -/
-def splitNumber (s : List Char) : Option NumParts :=
-  let (neg, s1) := match s with | '-' :: r => (true, r) | '+' :: r => (false, r) | _ => (false, s)
-  let (ip, s2) := s1.span isDigit
-  let (fp, s3, okf) : List Char × List Char × Bool := match s2 with
-    | '.' :: r => let (f, r') := r.span isDigit; if f.isEmpty then ([], s2, false) else (f, r', true)
-    | _ => ([], s2, true)
-  if !okf || (ip.isEmpty && fp.isEmpty) then none else
-  match s3 with
-  | [] => some ⟨neg, ip, fp, 0⟩
+/-- an optional sign: (negative?, sign text, rest) -/
+def stripSign : List Char → Bool × List Char × List Char
+  | '-' :: r => (true, ['-'], r)
+  | '+' :: r => (false, ['+'], r)
+  | s => (false, [], s)
+
+/-- an optional fraction `. d+`: (fraction digits, rest, well-formed?) — a `.` not followed by a digit is not
+    part of the number -/
+def fracPart (s : List Char) : List Char × List Char × Bool :=
+  match s with
+  | '.' :: r => if (spanD r).1.isEmpty then ([], s, false) else ((spanD r).1, (spanD r).2, true)
+  | _ => ([], s, true)
+
+/-- an optional exponent `[eE] [+-]? d+`: (exponent text, its value, rest); `e` not followed by digits is not
+    part of the number -/
+def expPart (s : List Char) : List Char × Int × List Char :=
+  match s with
   | e :: r =>
     if e == 'e' || e == 'E' then
-      let (eneg, r1) := match r with | '-' :: q => (true, q) | '+' :: q => (false, q) | _ => (false, r)
-      if r1.isEmpty || !r1.all isDigit then none
-      else some ⟨neg, ip, fp, if eneg then -(digitsVal r1 : Int) else (digitsVal r1 : Int)⟩
-    else none
+      let sg := stripSign r
+      let ed := (spanD sg.2.2).1
+      if ed.isEmpty then ([], 0, s)
+      else (e :: sg.2.1 ++ ed, (if sg.1 then -(digitsVal ed : Int) else (digitsVal ed : Int)), (spanD sg.2.2).2)
+    else ([], 0, s)
+  | [] => ([], 0, s)
+
+/-- the whole lexeme as a CSS number: `[+-]? (d+ | d* . d+) ([eE] [+-]? d+)?` -/
+def splitNumber (s : List Char) : Option NumParts :=
+  let sg := stripSign s
+  let ip := (spanD sg.2.2).1
+  let fr := fracPart (spanD sg.2.2).2
+  let ex := expPart fr.2.1
+  if ip.isEmpty && fr.1.isEmpty then none
+  else if !ex.2.2.isEmpty then none
+  else some ⟨sg.1, ip, fr.1, ex.2.1⟩
 
 def NumParts.val (p : NumParts) : Rat :=
   (if p.neg then -1 else 1) * (digitsVal (p.ip ++ p.fp) : Rat) * pow10 (p.exp - p.fp.length)
 
-/-- value of a number lexeme; lexemes with more than 1000 digits or an exponent beyond ±1000 are not
+/-- value of a number lexeme; lexemes with an exponent beyond ±1000 are not
     evaluated (user agents clamp such values; nothing here depends on them) -/
 def numVal (s : List Char) : Option Rat :=
   (splitNumber s).bind fun p =>
-    if p.exp.natAbs ≤ 1000 && p.ip.length + p.fp.length ≤ 1000 then some p.val else none
+    if p.exp.natAbs ≤ 1000 then some p.val else none
 
 def stripZeros : List Char → List Char
   | '0' :: r => stripZeros r
@@ -188,22 +210,12 @@ def numKey (s : List Char) : Option (List Char) :=
 
 /-- longest prefix that is a CSS number (CSS Syntax 3 §4.3.12 "consume a number"), and the rest -/
 def spanNumber (s : List Char) : List Char × List Char :=
-  let (sg, s1) : List Char × List Char :=
-    match s with | '-' :: r => (['-'], r) | '+' :: r => (['+'], r) | _ => ([], s)
-  let (ip, s2) := s1.span isDigit
-  let (fr, s3) : List Char × List Char := match s2 with
-    | '.' :: r => let (f, r') := r.span isDigit; if f.isEmpty then ([], s2) else ('.' :: f, r')
-    | _ => ([], s2)
-  let (ex, s4) : List Char × List Char := match s3 with
-    | e :: r =>
-      if e == 'e' || e == 'E' then
-        let (sg2, r1) : List Char × List Char :=
-          match r with | '-' :: q => (['-'], q) | '+' :: q => (['+'], q) | _ => ([], r)
-        let (ed, r2) := r1.span isDigit
-        if ed.isEmpty then ([], s3) else (e :: sg2 ++ ed, r2)
-      else ([], s3)
-    | [] => ([], s3)
-  (sg ++ ip ++ fr ++ ex, s4)
+  let sg := stripSign s
+  let ip := (spanD sg.2.2).1
+  let fr := fracPart (spanD sg.2.2).2
+  let frText : List Char := if fr.1.isEmpty then [] else '.' :: fr.1
+  let ex := expPart fr.2.1
+  (sg.2.1 ++ ip ++ frText ++ ex.1, ex.2.2)
 
 /-- the numeric meaning of a single numeric token -/
 inductive Num where
@@ -659,6 +671,21 @@ def both (x y : Option Off) : Option (Off × Off) :=
 /-- first alternative if defined, else the second -/
 def orElse' (a b : Option (Off × Off)) : Option (Off × Off) := match a with | some x => some x | none => b
 
+/-- a keyword with an optional offset token read as the horizontal / vertical component -/
+def axisH (k : PKw) (o : Option Tok) : Option Off :=
+  match o with
+  | none => horiz k none
+  | some t => (offOf t).bind fun x => horiz k (some x)
+
+def axisV (k : PKw) (o : Option Tok) : Option Off :=
+  match o with
+  | none => vert k none
+  | some t => (offOf t).bind fun x => vert k (some x)
+
+/-- two keyword groups in either order: `[ center | [left|right] <lp>? ] && [ center | [top|bottom] <lp>? ]` -/
+def groups2 (k1 : PKw) (o1 : Option Tok) (k2 : PKw) (o2 : Option Tok) : Option (Off × Off) :=
+  orElse' (both (axisH k1 o1) (axisV k2 o2)) (both (axisH k2 o2) (axisV k1 o1))
+
 /-- `<bg-position>`: (horizontal, vertical) offsets from the top-left corner -/
 def position (vs : List Tok) : Option (Off × Off) :=
   match vs with
@@ -671,22 +698,19 @@ def position (vs : List Tok) : Option (Off × Off) :=
     | some .bottom => some (pct 50, pct 100)
     | none => (offOf a).map fun o => (o, pct 50)
   | [a, b] =>
-    let x : Option Off := match pkwOf a with | some k => horiz k none | none => offOf a
-    let y : Option Off := match pkwOf b with | some k => vert k none | none => offOf b
-    let swapped : Option (Off × Off) := match pkwOf a, pkwOf b with
-      | some ka, some kb => both (horiz kb none) (vert ka none)
-      | _, _ => none
-    orElse' (both x y) swapped
+    match pkwOf a, pkwOf b with
+    | some ka, some kb => groups2 ka none kb none
+    | some ka, none => both (horiz ka none) (offOf b)
+    | none, some kb => both (offOf a) (vert kb none)
+    | none, none => both (offOf a) (offOf b)
   | [a, b, c] =>
     match pkwOf a, pkwOf b, pkwOf c with
-    | some ka, none, some kc => orElse' (both (horiz ka (offOf b)) (vert kc none)) (both (horiz kc none) (vert ka (offOf b)))
-    | some ka, some kb, none => orElse' (both (horiz ka none) (vert kb (offOf c))) (both (horiz kb (offOf c)) (vert ka none))
+    | some ka, none, some kc => groups2 ka (some b) kc none
+    | some ka, some kb, none => groups2 ka none kb (some c)
     | _, _, _ => none
   | [a, b, c, d] =>
     match pkwOf a, pkwOf b, pkwOf c, pkwOf d with
-    | some ka, none, some kc, none =>
-      if ka == .center || kc == .center then none else
-      orElse' (both (horiz ka (offOf b)) (vert kc (offOf d))) (both (horiz kc (offOf d)) (vert ka (offOf b)))
+    | some ka, none, some kc, none => groups2 ka (some b) kc (some d)
     | _, _, _, _ => none
   | _ => none
 
